@@ -160,6 +160,12 @@ func record[C any](p Prop[C], c C, r Result) {
 func safeRun[C any](run func(C) Result, c C) (r Result) {
 	defer func() {
 		if v := recover(); v != nil {
+			if inc, ok := v.(interface{ Inconclusive() string }); ok {
+				// harness-side failure (e.g. quiescence spin cap): never a violation
+				fmt.Println("HARNESS-INCONCLUSIVE:", inc.Inconclusive())
+				WriteStats()
+				os.Exit(3)
+			}
 			msg := fmt.Sprint(v)
 			if i := strings.Index(msg, "0x"); i >= 0 { // keep the message stable
 				msg = msg[:i]
